@@ -46,9 +46,25 @@ type knownFile struct {
 		What    string   `json:"what"`
 		Triples []triple `json:"triples"`
 	} `json:"findings"`
+	Exclusions []struct {
+		triple
+		Why string `json:"why"`
+	} `json:"oracle_exclusions"`
 }
 
 type knownEntry struct{ id, what string }
+
+var oracleExcluded = sync.OnceValue(func() map[triple]string {
+	var kf knownFile
+	m := map[triple]string{}
+	if err := json.Unmarshal(knownTriplesJSON, &kf); err != nil {
+		panic("known_triples.json: " + err.Error())
+	}
+	for _, x := range kf.Exclusions {
+		m[x.triple] = x.Why
+	}
+	return m
+})
 
 var knownIndex = sync.OnceValue(func() map[triple]knownEntry {
 	var kf knownFile
@@ -65,6 +81,9 @@ var knownIndex = sync.OnceValue(func() map[triple]knownEntry {
 })
 
 func classifyMismatch(m Mismatch) vt.Verdict {
+	if why, ok := oracleExcluded()[triple{m.File, m.Path, m.Aspect, m.Kind}]; ok {
+		return vt.Skipped("DDL does not describe the shipped file: %s", why)
+	}
 	if e, ok := knownIndex()[triple{m.File, m.Path, m.Aspect, m.Kind}]; ok {
 		return vt.KnownOr(e.id, "%s %s [%s] %s: %s", m.File, m.Path, m.Aspect, m.Kind, m.Detail)
 	}
@@ -229,6 +248,9 @@ func one(cs Case) vt.Verdict {
 			if v.Kind == vt.Violation {
 				return v
 			}
+			if v.Kind == vt.Skip {
+				continue
+			}
 			if known == nil {
 				vv := v
 				known = &vv
@@ -276,6 +298,9 @@ func body(t *testing.T) {
 	e := vt.GetEnv()
 	rec := vt.Recorder(prop)
 	c := loadCorpus()
+	if err := selfCheck(); err != nil {
+		t.Fatalf("harness self-check failed (not a property violation): %v", err)
+	}
 	if len(c.ddls) == 0 {
 		t.Fatalf("no DDL files under %s/ddl", corpusDir())
 	}
@@ -339,6 +364,11 @@ func body(t *testing.T) {
 					cs := Case{DDL: d.name, File: m.File, Path: m.Path, Aspect: m.Aspect}
 					v := classifyMismatch(m)
 					switch v.Kind {
+					case vt.Skip:
+						if !seenMism[k] {
+							rec.SkipCase()
+							rec.Label(sub, "oracle-excluded(ddl-not-of-this-file)", 1)
+						}
 					case vt.Known:
 						hitTriples[triple{m.File, m.Path, m.Aspect, m.Kind}] = true
 						if !seenMism[k] {
@@ -366,13 +396,17 @@ func body(t *testing.T) {
 	}
 
 	rec.SetExhaustive(sub, vt.Thorough())
-	var sk []string
 	for k, v := range skips {
-		sk = append(sk, fmt.Sprintf("%s=%d", k, v))
+		if strings.HasPrefix(k, "+") {
+			rec.Label(sub, k[1:], int64(v))
+		} else {
+			rec.Label(sub, "skip:"+k, int64(v))
+		}
 	}
-	sort.Strings(sk)
-	rec.Note("shard %d: %d files, %d DDLs compared; Open failed (unsupported -> error, allowed) for %d files %v; aspect-level skips: %s",
-		e.Shard, nfiles, nddl, openErrs, openErrFiles, strings.Join(sk, " "))
+	if openErrs > 0 {
+		rec.Note("shard %d: Open failed (unsupported -> error, allowed) for %d files %v", e.Shard, openErrs, openErrFiles)
+	}
+	_ = nddl
 	if e.Shard == 0 {
 		var rs []string
 		for k, v := range reasons {
